@@ -77,16 +77,21 @@ def custom_mods(name, fmt, obj, pth, part, snap, rng):
     return []
 
 
-def propose(fmt, spec, rng, T):
-    """one modification that breaks one catalogue rule of one written part (position uniform over the parts), or None"""
+def propose(fmt, spec, rng, T, target=None):
+    """one modification that breaks one catalogue rule of one written part (position uniform over the parts), or None.
+    `target` = (class, rule): corrupt exactly that rule (used when the source no longer contains it verbatim)"""
     obj = V.build(fmt, spec)
     snaps = [(p, c, s) for (p, c, s) in written_snapshots(fmt, obj) if R.catalogue(c)]
     # the header of a JSON format is rewritten by the writer: its stored version is not a field of what is written
     snaps = [x for x in snaps if x[1] != "common.Header"]
+    if target is not None:
+        snaps = [x for x in snaps if x[1] == target[0]]
+        if not snaps:
+            return None, None
     parts = dict(V.all_parts(fmt, obj))
     for _ in range(12):
         pth, cls, snap = rng.choice(snaps)
-        rule = rng.choice(R.catalogue(cls))
+        rule = rng.choice(R.catalogue(cls)) if target is None else target[1]
         if rule[0] == "custom":
             mods = custom_mods(rule[1], fmt, obj, pth, parts[pth], snap, rng)
         else:
@@ -134,6 +139,24 @@ class C06(Prop):
         T = self.T()
         n = 0
         i = 0
+        # targeted stream: rules of the catalogue that the regenerated validator inventory no longer contains verbatim
+        try:
+            gen = json.load(open(checklib.os.path.join(checklib.LEAN, "generated.json")))
+            sus = R.suspects(gen, T)
+        except Exception:   # noqa
+            sus = []
+        if sus:
+            tries = 0
+            while n < budget // 3 and tries < budget * 3:
+                tries += 1
+                cls_rule = sus[tries % len(sus)]
+                fmt = V.FORMATS[(tries // len(sus)) % len(V.FORMATS)]
+                spec = V.gen(rng, fmt, tries)
+                mod, tag = propose(fmt, spec, rng, T, target=cls_rule)
+                if mod is None:
+                    continue
+                n += 1
+                yield {"op": "c06", "args": {"fmt": fmt, "spec": spec, "mods": [mod], "tag": tag}}
         while n < budget:
             fmt = V.FORMATS[i % len(V.FORMATS)]
             k = i // len(V.FORMATS)
